@@ -506,3 +506,24 @@ R.contract(
     ],
     prop=["C12", "C13", "C05"],
 )
+
+
+# ------------------------------------------------------------------------------------------------ "only authentic packets" placement (C02, C12, C09)
+# Every effect receive_datagram has on protocol state on behalf of a packet's CONTENT happens only after
+# CryptoPair.decrypt_packet returned normally for that packet (AEAD opened it; contracts/quic_crypto.py, c_crypto.py): the
+# payload is handed to the frame dispatcher, the packet number is recorded for acknowledgement, the reference for
+# packet-number expansion moves, the idle deadline is re-armed, keys / spaces are discarded and the spin bit and peer
+# address bookkeeping change only then.  Decided on the control-flow structure of the current source (engine/dominance.py);
+# this is what the block contracts receive_datagram@record / @expected_pn assume at their entry.
+R.dominance(
+    "receive_datagram.after_auth",
+    function="quic/connection.py::QuicConnection.receive_datagram",
+    after="calls:decrypt_packet",
+    sites=["calls:_payload_received", "writes:ack_at", "writes:expected_packet_number", "writes:largest_received_packet", "writes:largest_received_time",
+           "writes:_close_at", "calls:_discard_epoch", "writes:_spin_bit", "writes:_spin_highest_pn", "calls:change_connection_id", "writes:is_validated"],
+    expect={"calls:_payload_received": 1, "writes:ack_at": 1, "writes:expected_packet_number": 1, "writes:_close_at": 1, "writes:largest_received_packet": 1},
+    # C09 T1: the FIRST datagram arms the idle deadline (only when none exists); it never postpones an existing one
+    exempt={"writes:_close_at": ["self._close_at is None"]},
+    exempt_note="arming the idle deadline when there is none is what C09 requires of the first datagram; it cannot postpone termination",
+    prop=["C02", "C12", "C09"],
+)
